@@ -268,3 +268,17 @@ def writes_not_preceded(cfg, f, g, writes):
         elif loop is not None and cfg.can_reach(wn, dn):
             late.append(w)        # the write is inside the validation loop: element k is written before element k+1 is checked
     return late
+
+
+def list_replacements(f: Func):
+    """[(stmt, value, in_place)] for `self._list = v` (rebinding) and `self._list[:] = v` (in place, keeps the shared object)"""
+    out = []
+    for n in walk_no_nested(f.node):
+        if isinstance(n, ast.Assign) and len(n.targets) == 1:
+            t = n.targets[0]
+            if match("self._list", t):
+                out.append((n, n.value, False))
+            elif isinstance(t, ast.Subscript) and match("self._list", t.value) and isinstance(t.slice, ast.Slice) and \
+                    t.slice.lower is None and t.slice.upper is None and t.slice.step is None:
+                out.append((n, n.value, True))
+    return out
